@@ -203,6 +203,20 @@ def run(ctx, rep):
             rep.undecided("C08.5", cons, "no comparison between the walker's address and the objective recognised", fn.loc())
             continue
         bad = [(n, r) for n, r in mine if r != "ok"]
+        # polarity: the block handler LEAVES (returns) when the objective is not below it; the zero-count branch
+        # SKIPS while it is
+        pol_bad = None
+        for n, r in mine:
+            if r != "ok":
+                continue
+            for st in iter_stmts(fn.body):
+                if isinstance(st, ast.If) and any(x is n for x in ast.walk(st.test)) and any(isinstance(x, ast.Return) for x in st.body) and not isinstance(n.ops[0], ast.NotEq):
+                    pol_bad = (n, "returns early when the objective IS below this block, and keeps walking when it is not")
+                if isinstance(st, ast.While) and any(x is n for x in ast.walk(st.test)) and not isinstance(n.ops[0], ast.Eq):
+                    pol_bad = (n, "skips traces while the objective is NOT inside the zero-count loop")
+        if pol_bad is not None and not bad:
+            rep.violation("C08.5", cons, f"`{ast.unparse(pol_bad[0])}`: the walker {pol_bad[1]}: traces are visited out of order or never", f"{fn.path}:{pol_bad[0].lineno}")
+            continue
         if bad:
             n, r = bad[0]
             rep.violation("C08.5", cons, f"`{ast.unparse(n)}`: {r[9:]}; two nests of the same shape (or a trace one level deeper) are confused: readouts are attributed to the wrong subcircuit, or a zero-count loop never ends", f"{fn.path}:{n.lineno}")
